@@ -313,6 +313,42 @@ func runImpl(c *vf.Check, im impl) {
 		trans++
 		c.Nontrivial(fmt.Sprintf("%s|SetInt64|%d", im.name, iv))
 	}
+	// receiver is also an operand: r.Op(r,b), r.Op(a,r), r.Op(r,r) over the core values
+	for _, a := range coreV {
+		for _, b := range coreV {
+			for _, op := range bin {
+				a, b, op := a, b, op
+				if op.nzb && (b.v.Sign() == 0 || a.v.Sign() == 0) {
+					continue
+				}
+				name := op.name + "-aliased(" + a.name + "," + b.name + ")"
+				c.Case(im.name+": "+name, pk+"/"+op.name, func(x *vf.Ctx) {
+					r1 := mkv(alpha.NS{Name: a.name, V: a.v}).s
+					got1 := val(x, pk+"/"+op.name, im, op.f(r1, r1, b.s))
+					r2 := mkv(alpha.NS{Name: b.name, V: b.v}).s
+					got2 := val(x, pk+"/"+op.name, im, op.f(r2, a.s, r2))
+					r3 := mkv(alpha.NS{Name: a.name, V: a.v}).s
+					got3 := val(x, pk+"/"+op.name, im, op.f(r3, r3, r3))
+					c.Eval(3)
+					want := new(big.Int).Mod(op.m(a.v, b.v), q)
+					want3 := new(big.Int).Mod(op.m(a.v, a.v), q)
+					if got1 == nil || got2 == nil || got3 == nil {
+						return
+					}
+					if got1.Cmp(want) != 0 {
+						x.Failf(pk+"/"+op.name, "r.%s(r,b) with r=%s b=%s = %s, want %s", op.name, a.name, b.name, got1, want)
+					}
+					if got2.Cmp(want) != 0 {
+						x.Failf(pk+"/"+op.name, "r.%s(a,r) with a=%s r=%s = %s, want %s", op.name, a.name, b.name, got2, want)
+					}
+					if got3.Cmp(want3) != 0 {
+						x.Failf(pk+"/"+op.name, "r.%s(r,r) with r=%s = %s, want %s", op.name, a.name, got3, want3)
+					}
+				})
+				trans += 3
+			}
+		}
+	}
 	// values made by every constructor (fresh, Zero, One, SetInt64, SetBytes of short inputs, Pick, Clone) as
 	// operands: internal representations differ from those of decoded values (shorter limb vectors, unreduced bytes)
 	var ctor []sv
